@@ -4,17 +4,17 @@ import json, subprocess
 
 CLAIMED = {
  "C13": dict(engine="envsim", design="4.1",
-   technique="deterministic simulation: seeded multi-client histories on one shared BDDEnv with handle-drop/alias/re-entrancy/cancellation faults; invariants I1-I5 after every step, each operation re-run in a fresh environment",
+   technique="deterministic simulation: seeded multi-client histories on one shared BDDEnv (raw API, BDDSet, formula clients; worlds usize / NamedSymbol / a user symbol type with scripted panics) with handle-drop, alias, re-entrancy, cancellation, mid-operation unwinding, table-growth, sparse-id and allocator faults; invariants I1-I5 after every step, each operation re-run in a fresh environment",
    text="Seeded exploration of operation histories (interleaved raw-API, BDDSet and formula clients on one environment, with cancelled and re-entrant fp transformers, foreign-node lookups, handle drops and allocator churn). After every step all retained handles are re-walked, every reachable node is compared by address with the environment table, and the step is repeated in a brand-new environment and compared structurally. Exploration level: samples histories, does not enumerate them.",
-   note="Trusted: the truth-table walker and the plan executor of /verif/sim. Bounds: <= 6 variables, <= 60 steps, <= 4 clients, counting lists <= 5. Operands are always diagrams interned in the shared environment."),
+   note="Trusted: the truth-table walker and the plan executor of /verif/sim. Bounds: <= 6 variables (1 run in 8: 7-10 variables, judged structurally), <= 60 steps, <= 4 clients, counting lists <= 5. Operands are always diagrams interned in the shared environment; only unwindings a caller can cause through the public API are injected."),
  "C02": dict(engine="envsim", design="4.3",
-   technique="deterministic simulation: the same seeded histories as construction routes; every handed-out diagram compared with an independently built canonical diagram (K1-K3), across environments",
+   technique="deterministic simulation: the same seeded histories as construction routes (incl. operands from a second environment or from no environment, and retries after injected mid-operation panics); every handed-out diagram compared with an independently built canonical diagram of its own function (K1-K3) and of the function a lock-step truth-table model expects (K4), across environments",
    text="Every diagram produced along seeded histories (shared environment, per-step fresh environments, From-converted diagrams) is checked to be ordered and reduced, to be `==` (and hash-equal) to a reduced ordered diagram built from its truth table with plain BDD::Choice values and no environment, and all pairs of live handles satisfy `==` iff same function. Exploration level; the functions dimension is sampled by what the histories build (reported as distinct states).",
-   note="Trusted: canon64 (Shannon expansion on bitsets) and the walker. One fixed variable order per world. <= 6 variables."),
+   note="Trusted: canon64 (Shannon expansion on bitsets), the walker and the reference semantics of the operations on 64-bit truth tables (K4; model / retain / cancelled fp have no single expected function and are judged by K1-K3 only). One fixed variable order per world. <= 6 variables."),
  "C19": dict(engine="envsim", design="4.2",
    technique="deterministic simulation: seeded BDDSet client histories (incl. self-aliased operands and early drops) interleaved with raw-API traffic on a shared environment, lock-step against a BTreeSet reference model",
    text="Seeded histories of insert/union/intersect/complement/empty/universe/contains on up to four sets sharing one environment with raw-API clients; after every step membership of every b-bit integer is read off the set's diagram and compared with a BTreeSet that underwent the same operations; queries must answer like the model and leave every set unchanged; self-aliased operands must not panic. Exploration level.",
-   note="Trusted: the BTreeSet model and the membership walker (does not call contains). b <= 4 bits, <= 4 sets, <= 60 steps."),
+   note="Trusted: the BTreeSet model and the membership walker (does not call contains). b <= 4 bits mostly, up to 8 bits in 1 run of 8; <= 4 live sets, <= 60 steps; a third of the runs are driven by set clients alone and hold no handle to the leaves."),
 }
 
 CLAIMED["C12"] = dict(engine="iosim", design="4.5",
